@@ -14,7 +14,7 @@ func init() {
 		id: "C06",
 		li: levelInfo{
 			Level:       "other",
-			Explanation: "Static rules on host selection. R1: in the TCP handler the argument of PickHost is the usable-host snapshot of the proc's own host set, an empty snapshot returns before any dial, and the dialled and the watched host are the value PickHost returned. R2: every Balancer implementation returns nil or an element of its argument, with a zone witness for the index. R3: the round-robin index is (result of one atomic read-modify-write on the shared counter) % len(hosts), computed in the counter's full width. R4: the least-connection choice never returns the strictly busier of its two samples (decision tree evaluated over the three orderings). R5: the handler starts a goroutine that selects on WaitRemoved() of the picked host and closes both connections; that watcher lives as long as the handler. R6: removal notification hits the stored host (shared with C15). R7: lb.New returns a balancer for every policy value. Fairness measured over real concurrent runs is not decided. R8 (shared with C15.R8): the healthy tiers - the candidate list - are written and purged only with the object the member map stores for the address. R9: every IncConnCount (the least-connection input) is released by DecConnCount on every path out of the function. R10 (shared with C15.R9): the candidate list handed out by Healthy() is never written, sorted or spliced in place; several PickHost/dial sites in one handler are accepted as long as every dialled and watched host is a PickHost result. R5 also requires every dial to go to the host whose removal is watched. R11 (shared with C15.R10): from every delete on the member map the stored object reaches a tier purge on every path, independent of its health flag. R12: every add/remove/replace handler of every processor hands the event list to host.Set on every path (the empty-list return aside). R7 accepts a builder table read with the comma-ok form. R6 also requires an overwritten member object to be notified. R13 (shared with C08.R5): a processor's configuration is replaced only after every fallible step of an update succeeded, so the policy recorded is the policy of the balancer in place.",
+			Explanation: "Static rules on host selection. R1: in the TCP handler the argument of PickHost is the usable-host snapshot of the proc's own host set, an empty snapshot returns before any dial, and the dialled and the watched host are the value PickHost returned. R2: every Balancer implementation returns nil or an element of its argument, with a zone witness for the index. R3: the round-robin index is (result of one atomic read-modify-write on the shared counter) % len(hosts), computed in the counter's full width. R4: the least-connection choice never returns the strictly busier of its two samples (decision tree evaluated over the three orderings). R5: the handler starts a goroutine that selects on WaitRemoved() of the picked host and closes both connections; that watcher lives as long as the handler. R6: removal notification hits the stored host (shared with C15). R7: lb.New returns a balancer for every policy value. Fairness measured over real concurrent runs is not decided. R8 (shared with C15.R8): the healthy tiers - the candidate list - are written and purged only with the object the member map stores for the address. R9: every IncConnCount (the least-connection input) is released by DecConnCount on every path out of the function. R10 (shared with C15.R9): the candidate list handed out by Healthy() is never written, sorted or spliced in place; several PickHost/dial sites in one handler are accepted as long as every dialled and watched host is a PickHost result. R5 also requires every dial to go to the host whose removal is watched. R11 (shared with C15.R10): from every delete on the member map the stored object reaches a tier purge on every path, independent of its health flag. R12: every add/remove/replace handler of every processor hands the event list to host.Set on every path (the empty-list return aside). R7 accepts a builder table read with the comma-ok form. R6 also requires an overwritten member object to be notified. R13 (shared with C08.R5): a processor's configuration is replaced only after every fallible step of an update succeeded, so the policy recorded is the policy of the balancer in place. R14: a *rand.Rand kept in a package-level variable or a field is used only under a mutex. R1 also requires every store into the healthy-hosts cache to happen under the set's write lock.",
 			Assumptions: []string{"math/rand.Int() is non-negative; atomic read-modify-write results are unique"},
 			TrustedBase: []string{"go/ssa", "samlint ebounds.go + zone.go"},
 		},
